@@ -164,7 +164,16 @@ def main():
     seed = int(os.environ.get('VERIF_SEED', '0') or 0)
     t0 = time.time()
     if a.replay:
-        print(open(a.replay).read())
+        rep = json.load(open(a.replay))
+        print(json.dumps(rep, indent=1)[:6000])
+        inp = rep.get('input')
+        if isinstance(inp, dict) and inp.get('case'):
+            import native
+            fl = native.replay_case(inp['case'])
+            for f in fl:
+                print('REPLAY-FAIL property=%s clause=%s :: %s' % (f['property'], f['check'], f['detail']))
+            print('replayed against %s: %d failing clause(s)' % (vrun.REPO, len(fl)))
+            return 1 if fl else 0
         return 0
     P = props.PROPS.get(pid)
     if P is None:
@@ -192,20 +201,44 @@ def main():
         base_bodies = {}
     edited = {fn for fn, h in b.get('bodies', {}).items() if base_bodies.get(fn) != h}
     new_shape = []
+    structural = []   # failures that leave P undecided by proof (bounded stand-in decides), never violations by themselves
+    SEMANTIC = ('requires', 'ensures', 'const_ensures', 'closure_ensures', 'loop_ensures')
     for f in fails:
-        tags = f['tags']
-        if tags is None and f['kind'] == 'safety' and f['fn'] in edited and f.get('pragma') is None:
-            # a Verus-generated safety obligation inside a function whose body differs from the baseline: this
-            # obligation did not exist (in this form) on the unchanged tree, so its failure alone decides nothing
-            new_shape.append(f)
-            continue
-        if tags is None:
-            # safety / unattributed obligation inside a function or lemma: function default tags (+C10 for safety)
-            tags = list(props.fn_default_tags(b['contracts'], f['fn']) or []) + list(f.get('pragma') or [])
-            if f['kind'] == 'safety':
-                tags.append('C10')
-        if pid in tags:
+        dflt = list(props.fn_default_tags(b['contracts'], f['fn']) or [])
+        sem, struct = set(), set()
+        if f['kind'] == 'clause' and f.get('explicit'):
+            sem = set(f['tags'])                       # the clause names the properties it states
+        elif f['kind'] == 'clause' and f.get('ckind') in SEMANTIC:
+            # a pre/postcondition without tags of its own states the function's properties; possible panics are
+            # C10's business only through safety obligations (a failed precondition leaves the callee's safety open)
+            sem = (set(f['tags']) - {'C10'}) or set(f['tags'])
+            if f.get('ckind') == 'requires':
+                struct = {'C10'} - sem
+        elif f['kind'] == 'clause' and f.get('ckind') in ('invariant', 'invariant_except_break') and not props.is_structural_text(f.get('ctext') or ''):
+            # an untagged invariant that talks about the model (spec functions, quantified cell facts) states the
+            # function's properties at every iteration
+            sem = (set(f['tags']) - {'C10'}) or set(f['tags'])
+            struct = {'C10'} - sem
+        elif f['kind'] == 'clause':
+            # purely arithmetic invariants (counter ranges, lengths) and contract-authored proof steps without tags
+            # of their own are scaffolding shared by all properties of the function: their failure leaves those
+            # properties UNDECIDED by proof (the bounded stand-in then decides), it is not a violation by itself
+            struct = set(f['tags'])
+        elif f['kind'] == 'safety':
+            if f['fn'] in edited and f.get('pragma') is None:
+                # a Verus-generated safety obligation inside a function whose body differs from the baseline: this
+                # obligation did not exist (in this form) on the unchanged tree, so its failure alone decides nothing
+                new_shape.append(f)
+                struct = set(dflt) | {'C10'}
+            else:
+                sem = {'C10'}
+                struct = set(dflt) - {'C10'}
+        else:
+            sem = ((set(dflt) | set(f.get('pragma') or [])) - {'C10'}) or {'C10'}
+        if pid in sem:
             mine.append(f)
+        elif pid in struct:
+            structural.append(f)
     # obligations of this property
     clauses = [c for c in b['registry'] if pid in c.tags]
     fr0 = fn_results(res)
@@ -227,9 +260,8 @@ def main():
     assumed = [x for x in assumed if not x[1].startswith('LOST ANCHOR')]
     unchecked = [f for f in cone_fns if f not in fr and f not in [x[0] for x in assumed]]
     unchecked += ['%s (%s)' % lw for lw in lost_here if lw[0] not in unchecked]
-    for f in new_shape:
-        if pid in (props.fn_default_tags(b['contracts'], f['fn']) or []) + ['C10']:
-            tool.append({'msg': 'new safety obligation in edited function not discharged: ' + f['msg'], 'fn': f['fn'], 'line': f['line'], 'compile': False})
+    for f in structural:
+        tool.append({'msg': ('new safety obligation in edited function not discharged: ' if f in new_shape else 'proof scaffolding (untagged invariant / proof step / safety side-condition) not discharged: ') + (f['oid'] or '') + ' ' + f['msg'], 'fn': f['fn'], 'line': f['line'], 'compile': False})
     forced_fns = set(V['forced'])
     unchecked += [f for f in cone_fns if f in forced_fns and f not in unchecked]
     tool_mine = [t for t in tool if t['fn'] is None or t['fn'] in cone_fns or t['fn'] not in {c_.name for c_ in b['contracts']}]
@@ -270,18 +302,58 @@ def main():
         rc = 1
     elif tool_mine or unchecked:
         for t in tool_mine[:10]:
-            print('UNDECIDED property=%s reason=%s (line %s, fn %s)' % (pid, t['msg'], t['line'], t['fn']))
+            print('UNDECIDED-BY-PROOF property=%s reason=%s (line %s, fn %s)' % (pid, t['msg'], t['line'], t['fn']))
         for u in unchecked[:10]:
-            print('UNDECIDED property=%s reason=function %s was not checked by the verifier' % (pid, u))
+            print('UNDECIDED-BY-PROOF property=%s reason=function %s was not checked by the verifier' % (pid, u))
         rc = 2
+    bounded = None
+    if rc == 2 or (rc == 0 and a.tier == 'thorough'):
+        # bounded stand-in (labelled, never counted as proved): the native oracle on its deterministic corpus
+        try:
+            import native
+            bounded = native.sweep([pid], 'thorough' if a.tier == 'thorough' else 'quick', seed)
+        except Exception as e:
+            bounded = None
+            print('native bounded oracle unavailable: %s' % e)
+        if bounded is not None:
+            nf = [f for f in bounded['failures'] if f['property'] == pid]
+            if nf:
+                os.makedirs(os.path.join(VERIF, 'replays'), exist_ok=True)
+                import hashlib
+                replay_path = os.path.join(VERIF, 'replays', '%s-native-%s.json' % (pid, hashlib.sha1(json.dumps(nf[0], sort_keys=True).encode()).hexdigest()[:12]))
+                json.dump({'property': pid, 'decided_by': 'bounded native oracle (deductive check %s)' % ('undecided for: ' + '; '.join([t['msg'] for t in tool_mine[:5]] + unchecked[:5]) if rc == 2 else 'passed'),
+                           'failed_obligations': [{'obligation': 'native::%s' % f['check'], 'message': f['detail']} for f in nf],
+                           'input': {'case': nf[0]['case'], 'clause': nf[0]['check'], 'observed': nf[0]['detail'], 'reproduce_rust': native.rust_snippet(nf[0]['case'])},
+                           'native_cmd': bounded['cmd'], 'bound': bounded['bound']}, open(replay_path, 'w'), indent=1)
+                for f in nf[:5]:
+                    print('FAILED-OBLIGATION property=%s native::%s :: %s :: case %s' % (pid, f['check'], f['detail'], json.dumps(f['case'])[:200]))
+                print('VIOLATION property=%s replay=%s' % (pid, replay_path))
+                violations = [('native::' + f['check'], {'fn': None, 'msg': f['detail']}) for f in nf]
+                rc = 1
+            elif rc == 2:
+                print('BOUNDED property=%s the functions listed above are covered only by the bounded native oracle in this tree: %s; 0 failing cases' % (pid, bounded['bound']))
+                rc = 0
     # evidence
     n_ob = len(clauses) + len(cone_fns)
     failed_keys = {k for k, _ in violations} | {k for k, _ in known_hits}
     n_failed = len(failed_keys)
+    und_fns = {t['fn'] for t in tool_mine if t['fn']} | {u.split(' ')[0] for u in unchecked}
+    proof_undecided = bool(tool_mine or unchecked)
+    if not proof_undecided:
+        n_discharged = max(0, n_ob - n_failed)
+    elif any(t['fn'] is None for t in tool_mine):
+        n_discharged = 0
+    else:
+        n_discharged = max(0, len([c for c in clauses if c.fn not in und_fns]) + len([f for f in cone_fns if f not in und_fns]) - n_failed)
     ev = {
-        'property_id': pid, 'tier': a.tier if a.tier in ('quick', 'thorough') else 'quick', 'seed': seed, 'level': props.MANIFEST_META.get(pid, {}).get('category', 'proof'),
+        'property_id': pid, 'tier': a.tier if a.tier in ('quick', 'thorough') else 'quick', 'seed': seed,
+        # a run in which the deductive check could not decide part of the cone is NOT reported at proof level
+        'level': ('exploration' if proof_undecided else props.MANIFEST_META.get(pid, {}).get('category', 'proof')),
         'coverage': {
-            'obligations': n_ob, 'discharged': max(0, n_ob - n_failed) if rc != 2 else 0,
+            **({'evaluations': bounded['summary'].get('builds', 0), 'distinct_nontrivial': bounded['summary'].get('distinct_cases', 0),
+                'rule': 'BOUNDED stand-in (never counted as proved): ' + bounded['bound'] + '; a case is one (payload, level, version, mask, mode) tuple, distinct by that tuple; every case is a full build checked clause by clause against the plain-Rust transcription of the ISO model'} if bounded is not None else {}),
+            'bounded_stand_in': ({'used_because': [t['msg'] + ' @' + str(t['fn']) for t in tool_mine[:10]] + unchecked[:10], 'cmd': bounded['cmd'], 'bound': bounded['bound'], 'summary': bounded['summary'], 'wall_s': bounded['wall_s'], 'cached': bounded['cached']} if bounded is not None else None),
+            'obligations': n_ob, 'discharged': n_discharged,
             'checker_cmd': res['cmd'],
             'trusted_base': props.trusted_base(b),
             'explanation': 'obligations = tagged contract clauses (%d) + verified function bodies incl. Verus-generated safety/termination obligations (%d)' % (len(clauses), len(cone_fns)),
@@ -289,7 +361,7 @@ def main():
             'assumed_contracts_not_proved': [{'fn': n, 'reason': r} for n, r in assumed],
             'back_end': vrun.verus_version(),
             'solver_ms_total': sum(v['ms'] for k, v in fr.items() if k in cone_fns),
-            'samples': [c.oid for c in clauses[:8]],
+            'samples': [c.oid for c in clauses[:8]] + (bounded['summary'].get('samples', []) if bounded is not None else []),
             'extraction_log': b['logs'],
             'unchecked_functions': unchecked, 'tool_limits': [t['msg'] + ' @' + str(t['fn']) for t in tool_mine[:20]],
             'known_findings_hit': [k for k, _ in known_hits],
